@@ -175,7 +175,14 @@ CompFaults ==
 Healthy == SetToSeq({FileRec(m, Cat(GoodFiles[m]), "") : m \in DOMAIN GoodFiles})
 AfterHealthy(cs) == {[files |-> c.files, first |-> Healthy, cfg |-> c.cfg, load |-> c.load, ops |-> c.ops, tags |-> c.tags \o <<"after-healthy-load">>] : c \in cs}
 
-Cases == CASE Family = "c13tree" -> TreeFaults \cup CompFaults
+\* component files that use themselves or each other (also in a branch that is never taken): loading returns
+CycleTrees == {PathCase(<<FileRec("components/self", "s@if(false)@component(\"~self\")@end", ""), FileRec("home", "h@component(\"~self\")", "")>>,
+                        [any |-> TRUE, mentions |-> <<"components/self", "home">>], <<>>, "component-cycle"),
+               PathCase(<<FileRec("components/a", "a@if(false)@component(\"~b\")@end", ""), FileRec("components/b", "b@if(false)@component(\"~a\")@end", ""), FileRec("home", "h@component(\"~a\")", "")>>,
+                        [any |-> TRUE, mentions |-> <<"components/a", "components/b", "home">>], <<>>, "component-cycle"),
+               PathCase(<<FileRec("layouts/l", "@use(\"~l\")@reserve(\"x\")", ""), FileRec("home", "@use(\"~l\")@insert(\"x\", 1)", "")>>,
+                        [any |-> TRUE, mentions |-> <<"layouts/l", "home">>], <<>>, "layout-cycle")}
+Cases == CASE Family = "c13tree" -> TreeFaults \cup CompFaults \cup CycleTrees
            [] Family = "c18names" -> NameCases(Singles, Spellings, Exts)
            [] Family = "c18namesall" -> NameCases(Singles \cup Pairs, Spellings, Exts)
            [] Family = "c18faults" -> AfterHealthy(FaultCases \cup TruncCases) \cup FaultCases \cup TruncCases \cup BaseCase
